@@ -301,13 +301,27 @@ func (srv *Session) handleSimpleQuery(ctx context.Context, reader *buffer.Reader
 			return ErrorCode(writer, err)
 		}
 
-		err = statements[index].fn(ctx, NewDataWriter(ctx, statements[index].columns, nil, reader, writer), nil)
+		err = executeStatement(ctx, statements[index], NewDataWriter(ctx, statements[index].columns, nil, reader, writer))
 		if err != nil {
 			return ErrorCode(writer, err)
 		}
 	}
 
 	return readyForQuery(writer, types.ServerIdle)
+}
+
+// executeStatement executes the given statement using the given writer. A panic
+// of the statement function is recovered and returned as a error, just like
+// statements executed through a portal, instead of crashing the server.
+func executeStatement(ctx context.Context, statement *PreparedStatement, writer DataWriter) (err error) {
+	defer func() {
+		r := recover()
+		if r != nil {
+			err = fmt.Errorf("unexpected panic: %s", r)
+		}
+	}()
+
+	return statement.fn(ctx, writer, nil)
 }
 
 func (srv *Session) handleParse(ctx context.Context, reader *buffer.Reader, writer *buffer.Writer) error {
